@@ -297,11 +297,11 @@ structure Hints where
   new : List Nat
 deriving Repr, Inhabited
 
-/-- "store a cached version of node capacity": from the first listed node, before classification. -/
+/-- "store a cached version of node capacity": from the first listed node that is not cordoned. -/
 def withCache (st0 : GState) (nodes : List Node) : GState :=
-  match nodes with
-  | [] => st0
-  | n :: _ => { st0 with cachedCPU := n.allocCPU, cachedMem := n.allocMem * 1000 }
+  match nodes.find? (fun n => !n.unschedulable) with
+  | none => st0
+  | some n => { st0 with cachedCPU := n.allocCPU, cachedMem := n.allocMem * 1000 }
 
 /-- The acting half of `scaleNodeGroup`: force reaper, then scale down / scale up / reap, for the
     decided `delta`. `mj` is what `calculateNewNodeMetrics` journalled before. -/
